@@ -31,13 +31,14 @@ type NativeResult struct {
 }
 
 type Native struct {
-	P      *Program
-	Dir    string
-	bins   map[string]string
-	env    []string
-	BuildS float64
-	Params string
-	Race   bool // build with the race detector (go1.26.8; the default toolchain has no race runtime)
+	P        *Program
+	Dir      string
+	bins     map[string]string
+	env      []string
+	BuildS   float64
+	Params   string
+	Race     bool // build with the race detector (go1.26.8; the default toolchain has no race runtime)
+	ExtraEnv []string
 }
 
 func NewNative(P *Program) (*Native, error) {
@@ -127,6 +128,7 @@ func (n *Native) Run(pkg string, items []NativeItem, timeoutMs int) (map[string]
 			cmd.Dir = n.P.RepoDir // virtual harness package
 		}
 		cmd.Env = append(n.env, "VN_VECTORS="+vf, "VN_START="+strconv.Itoa(start), "VN_TIMEOUT_MS="+strconv.Itoa(timeoutMs), "VN_PARAMS="+n.Params, "VN_ASSERT_PREFIX="+n.P.AssertPrefix)
+		cmd.Env = append(cmd.Env, n.ExtraEnv...)
 		var stdout, stderr bytes.Buffer
 		cmd.Stdout = &stdout
 		cmd.Stderr = &stderr
